@@ -98,7 +98,7 @@ pub fn handle(op: &str, a: &[&str]) -> Option<Resp> {
                     fail = Some("document with a corrupted line accepted by the strict reader".to_string());
                 }
             }
-            Some(Resp::with(format!("{} {}", es(&text), view), fail))
+            Some(Resp::with(format!("{} {} wf={}", es(&text), view, ebool(docspec::wf(&ls))), fail))
         }
         ("deb.view", [t]) => {
             let s = ds(t)?;
